@@ -481,16 +481,14 @@ func (e *Env) C05Space() {
 	}
 	e.Run.Analysed("input classes of applySpace", n)
 	e.Run.Floor("R-SPACE", "input classes evaluated", n, 24)
-	// the loop body: one line start per iteration, bracketed by cursor advances, marker set
+	// the loop body, by its effect over the entry cursor c0: one line start, recorded after
+	// stepping over one byte (the separator, e.g. a comma), cursor left directly behind the line
+	// start, marker = cursor
 	if loopBody != nil {
-		var norm []string
-		for _, st := range loopBody {
-			norm = append(norm, stmtNorm(c, st))
-		}
-		got := strings.Join(norm, "; ")
-		nApp, nInc := strings.Count(got, "r.lines = append(r.lines,"), strings.Count(got, "r.cursor++")
-		e.Run.Check("R-SPACE", "applySpace: each line break records exactly one line start and advances the cursor", pos, nApp == 1 && nInc >= 1 && strings.HasSuffix(got, "r.cursor++; r.cursorAtNewLine = r.cursor"),
-			"loop body: "+got)
+		eff := e.lineBreakEffect(info, loopBody)
+		good := eff.why == "" && len(eff.starts) == 1 && eff.starts[0] >= 1 && eff.exit == eff.starts[0]+1 && eff.markerSet && eff.markerVal == eff.exit
+		e.Run.Check("R-SPACE", "applySpace: each line break records exactly one line start and advances the cursor", pos, good,
+			fmt.Sprintf("effect of one iteration over the entry cursor c0: line starts at c0+%v, cursor on exit c0+%d, marker set=%v (c0+%d) %s — expected one line start at c0+k (k ≥ 1: the byte stepped over for a separator), exit cursor c0+k+1, marker = exit cursor", eff.starts, eff.exit, eff.markerSet, eff.markerVal, eff.why))
 	}
 }
 
@@ -505,21 +503,23 @@ func (e *Env) markerDiscipline() {
 		if fd.Body == nil || !isRestorePath(fd) || fd.Name.Name == "RestoreFile" {
 			continue
 		}
+		blocks := e.lineBreakBlocks(info, fd)
 		ast.Inspect(fd.Body, func(nd ast.Node) bool {
-			blk, ok := nd.(*ast.BlockStmt)
-			if !ok {
+			as, ok := nd.(*ast.AssignStmt)
+			if !ok || len(as.Lhs) != 1 || !e.isRestorerField(info, as.Lhs[0], "cursorAtNewLine") {
 				return true
 			}
-			for i, st := range blk.List {
-				as, ok := st.(*ast.AssignStmt)
-				if !ok || len(as.Lhs) != 1 || !e.isRestorerField(info, as.Lhs[0], "cursorAtNewLine") {
-					continue
+			n++
+			inBlock := false
+			for _, blk := range blocks {
+				for _, st := range blk {
+					if st == ast.Stmt(as) {
+						inBlock = true
+					}
 				}
-				n++
-				ok2 := i >= 2 && stmtNorm(c, blk.List[i-1]) == "r.cursor++" && strings.HasPrefix(stmtNorm(c, blk.List[i-2]), "r.lines = append(r.lines,")
-				e.Run.Check("R-SPACE", "fresh-line marker set only directly after a line break in "+load.FuncName(fd), e.Prog.Pos(as.Pos()), ok2,
-					"the marker means 'the cursor sits directly after a line break'; it must follow `r.lines = append(...)`; `r.cursor++`")
 			}
+			e.Run.Check("R-SPACE", "fresh-line marker set only directly after a line break in "+load.FuncName(fd), e.Prog.Pos(as.Pos()), inBlock,
+				"the marker means 'the cursor sits directly after a line break'; it may only be set in a block that records a line start (whose effect R-CURSOR checks: marker = exit cursor)")
 			return true
 		})
 	}
